@@ -6,7 +6,7 @@ import vlib
 
 META = {
     "category": "model_checking",
-    "text": "TLC explores MsgBuilder.tla (push question/record/OPT, section conversions forward and backward, rewind, push limit, finish; the Static/Tree/Hash compressors transcribed individually; real offsets with filler records that put names on both sides of 0x3FFF, 0xBFFF and 0xFFFF) exhaustively over call sequences of bounded length on every compressor x target kind and decides ParseBack, CountsMatch, FailedPushIsNoop, PointersBackwardAndIntended, ShimMatches, TableWithinBuffer. Every explored behaviour (plus deeper random ones) is replayed call by call into the real MessageBuilder on Vec/BytesMut/Array<512>/StreamTarget inside no/Static/Tree/Hash compressor, comparing result, length, counts and length prefix after every call and re-reading the final octets with an independent reader and with the library's Message; recorded random runs (<= 200 calls, 30 record types, generated names) are validated by TLC against the specification.",
+    "text": "TLC explores MsgBuilder.tla (push question/record/OPT, section conversions forward and backward, rewind, push limit, finish; the Static/Tree/Hash compressors transcribed individually; real offsets with filler records that put names on both sides of 0x3FFF, 0xBFFF and 0xFFFF) exhaustively over call sequences of bounded length on every compressor x target kind and decides ParseBack, CountsMatch, FailedPushIsNoop, PointersBackwardAndIntended, ShimMatches, TableWithinBuffer. Every explored behaviour (plus deeper random ones) is replayed call by call into the real MessageBuilder on Vec/BytesMut/Array<512>/StreamTarget inside no/Static/Tree/Hash compressor, through every public entry point of each call (11 route variants per behaviour: Record / reference / the tuple forms / push_ref / the RecordSectionBuilder trait, Question forms, conversion methods vs From impls, limit through Deref / as_builder_mut / AsMut, opt() with raw options vs clone_from, finish / into_target / into_message / Message::from), comparing result, length, counts and length prefix after every call and re-reading the final octets with an independent reader and with the library's Message; recorded random runs (<= 200 calls, 30 record types, generated names) are validated by TLC against the specification.",
     "note": "Trusted: TLC, the RFC 1035 reader in MsgBuilderWire.tla and its Rust twin in harness/src/builder.rs, the executor. The predicted lengths on compressing targets rely on the transcription of each compressor's strategy (which occurrence is remembered, case sensitivity of TreeCompressor, 24 entries of StaticCompressor); the octets themselves are only validated there, and compared exactly on targets without compressor. Push errors are compared as ok/error, not by kind; a push that reaches the limit exactly is left open. CountOverflow (65535 pushes) is not reachable below 65536 octets and not exercised. TLC -coverage is unusable on this module (cost model explodes on the nested recursive operators); action coverage is counted from the generated behaviours instead.",
     "technique": "TLA+ spec (MsgBuilder.tla, MsgBuilderWire.tla) + TLC exhaustive and simulation; spec->impl behaviour replay; impl->spec trace validation",
     "design_ref": "DESIGN.md §4 C02",
